@@ -30,7 +30,7 @@ UNITS: dict[str, list] = {}
 
 class Unit:
     def __init__(self, prop, name, func, fn, replay=None, characterises=None, bounded=False,
-                 expect_paths=None, timeout_ms=None, note=None, max_paths=4000):
+                 expect_paths=None, timeout_ms=None, note=None, max_paths=4000, max_seconds=None):
         self.prop = prop
         self.name = name
         self.func = func if isinstance(func, (list, tuple)) else [func]
@@ -40,6 +40,7 @@ class Unit:
         self.timeout_ms = timeout_ms
         self.note = note
         self.max_paths = max_paths
+        self.max_seconds = max_seconds      # wall-clock budget of the unit (None = no limit): beyond it the unit comes out undecided
 
 
 def unit(prop, name, func, **kw):
@@ -290,6 +291,7 @@ def run_unit(u: Unit, repo: Repo, timeout_ms=10000, seed=0) -> UnitResult:
             ctx.prove('no-unexpected-exception', z3.BoolVal(False),
                       note=f'{e.inst!r} raised at {e.inst.where}')
 
+    _core.DEADLINE[0] = (time.time() + u.max_seconds * (1 if timeout_ms <= 10000 else 4)) if u.max_seconds else None
     try:
         paths = explore(body, make_ctx, max_paths=u.max_paths)
     except PathLimit as e:
@@ -342,6 +344,7 @@ def run_unit(u: Unit, repo: Repo, timeout_ms=10000, seed=0) -> UnitResult:
             if len(res.samples) < 3 and r.status == 'proved':
                 res.samples.append(dict(unit=u.name, clause=r.name, goal=_fmt(r.formula),
                                         path_decisions=r.path, backend=r.backend))
+    _core.DEADLINE[0] = None
     res.models_used = set(models_pkg.USED)
     res.wall = time.time() - t0
     return res
